@@ -16,6 +16,7 @@ import numpy as np
 from vmon import core, gen, contracts
 from vmon import refmodel as rm
 
+ANCHORS = ['evo/tools/file_interface.py', 'evo/tools/pandas_bridge.py']
 LEVEL = "exploration"
 SHARDS = {"quick": 8, "thorough": 16}
 RULE = ("trajectories/results whose values need all 17 significant digits (random bit patterns), "
